@@ -1135,8 +1135,16 @@ def check_forward(ix, rep, cls, f, nodename, rule='R-FORWARD'):
         # window [0,0], which is the operand itself.  Anything else is a second implementation of the operator on that path; in particular
         # an unbounded scan is never the same as a bounded window, however long: the last value is held beyond the last sample, where old
         # samples do leave a window of any finite length
+        rvx = r.value
+        # a copy of the operand is the operand: list(x), x[:], x.copy()
+        if isinstance(rvx, ast.Call) and isinstance(rvx.func, ast.Name) and rvx.func.id == 'list' and len(rvx.args) == 1:
+            rvx = rvx.args[0]
+        elif isinstance(rvx, ast.Subscript) and isinstance(rvx.slice, ast.Slice) and rvx.slice.lower is None and rvx.slice.upper is None and rvx.slice.step is None:
+            rvx = rvx.value
+        elif isinstance(rvx, ast.Call) and isinstance(rvx.func, ast.Attribute) and rvx.func.attr == 'copy' and not rvx.args:
+            rvx = rvx.func.value
         try:
-            rv = _hterm(ix, f, r.value, env, node) if r.value is not None else None
+            rv = _hterm(ix, f, rvx, env, node) if rvx is not None else None
         except Shape:
             rv = ('expr', ast.unparse(r.value)[:60])
         ctext = ast.unparse(ifst.test)
